@@ -59,18 +59,20 @@ def _props(obj):
 
 OPS = ['ads_up:A1', 'ads_ow:A1b', 'ads_ow:A1c', 'ads_del:A1', 'ads_up:A2', 'ads_del:A2', 'mat_up:M1', 'mat_ow:M1b', 'mat_ow:M1c', 'mat_del:M1', 'mat_up:M2', 'mat_del:M2',
        'iso_up:I1', 'iso_up_strict:I1', 'iso_up_matonly:I1', 'iso_up_adsonly:I1', 'iso_del:I1', 'iso_up:I2', 'iso_del:I2', 'iso_up:I3', 'iso_del:I3',
-       'atype_up:colour', 'atype_del:colour', 'mtype_del:batch']
+       'atype_up:colour', 'atype_del:colour', 'mtype_del:batch', 'mtype_up:batch', 'mtype_up:density', 'atype_ow:colour', 'mtype_ow:batch', 'mtype_ow:ghost']
+# property types carry a unit and a description; the ones uploaded explicitly get both, auto-inserted ones have none
+TYPE_ATTRS = {'up': ('nm', 'as measured'), 'ow': ('g/cm3', 'second version')}
 
 
 class Model:
     def __init__(self):
         self.ads, self.mats, self.isos = {}, {}, {}
-        self.atypes, self.mtypes = set(), set()
+        self.atypes, self.mtypes = {}, {}
 
     def copy(self):
         m = Model()
         m.ads, m.mats, m.isos = {k: dict(v) for k, v in self.ads.items()}, {k: dict(v) for k, v in self.mats.items()}, dict(self.isos)
-        m.atypes, m.mtypes = set(self.atypes), set(self.mtypes)
+        m.atypes, m.mtypes = dict(self.atypes), dict(self.mtypes)
         return m
 
     def apply(self, op, U):
@@ -82,7 +84,7 @@ class Model:
             if (a.name in n.ads) != (kind == 'ads_ow'):
                 return 'refused'
             n.ads[a.name] = _props(a)
-            n.atypes |= set(n.ads[a.name])
+            [n.atypes.setdefault(t, (None, None)) for t in n.ads[a.name]]
         elif kind == 'ads_del':
             a = U[arg]
             if a.name not in n.ads or any(v[2] == a.name for v in n.isos.values()):
@@ -93,7 +95,7 @@ class Model:
             if (a.name in n.mats) != (kind == 'mat_ow'):
                 return 'refused'
             n.mats[a.name] = _props(a)
-            n.mtypes |= set(n.mats[a.name])
+            [n.mtypes.setdefault(t, (None, None)) for t in n.mats[a.name]]
         elif kind == 'mat_del':
             a = U[arg]
             if a.name not in n.mats or any(v[1] == a.name for v in n.isos.values()):
@@ -106,11 +108,11 @@ class Model:
             if kind in ('iso_up', 'iso_up_matonly'):
                 if mat not in n.mats:
                     n.mats[mat] = _props(i.material)
-                    n.mtypes |= set(n.mats[mat])
+                    [n.mtypes.setdefault(t, (None, None)) for t in n.mats[mat]]
             if kind in ('iso_up', 'iso_up_adsonly'):
                 if ads not in n.ads:
                     n.ads[ads] = _props(i.adsorbate)
-                    n.atypes |= set(n.ads[ads])
+                    [n.atypes.setdefault(t, (None, None)) for t in n.ads[ads]]
             if mat not in n.mats or ads not in n.ads or iso_key(i) in n.isos:
                 return 'refused'
             n.isos[iso_key(i)] = (type(i).__name__, mat, ads)
@@ -119,18 +121,20 @@ class Model:
             if iso_key(i) not in n.isos:
                 return 'refused'
             del n.isos[iso_key(i)]
-        elif kind == 'atype_up':
-            if arg in n.atypes:
+        elif kind in ('atype_up', 'mtype_up', 'atype_ow', 'mtype_ow'):
+            # (overwriting an absent type is refused, as overwriting an absent adsorbate or material is)
+            types = n.atypes if kind[0] == 'a' else n.mtypes
+            if (arg in types) != kind.endswith('_ow'):
                 return 'refused'
-            n.atypes.add(arg)
+            types[arg] = TYPE_ATTRS[kind[-2:]]
         elif kind == 'atype_del':
             if arg not in n.atypes or any(arg in p for p in n.ads.values()):
                 return 'refused'
-            n.atypes.discard(arg)
+            del n.atypes[arg]
         elif kind == 'mtype_del':
             if arg not in n.mtypes or any(arg in p for p in n.mats.values()):
                 return 'refused'
-            n.mtypes.discard(arg)
+            del n.mtypes[arg]
         self.__dict__.update(n.__dict__)
         return 'ok'
 
@@ -160,8 +164,10 @@ def _do(S, op, U, db):
         S.isotherm_to_db(U[arg], autoinsert_material=False, autoinsert_adsorbate=True, **kw)
     elif kind == 'iso_del':
         S.isotherm_delete_db(U[arg], **kw)
-    elif kind == 'atype_up':
-        S.adsorbate_property_type_to_db({'type': arg}, **kw)
+    elif kind in ('atype_up', 'mtype_up', 'atype_ow', 'mtype_ow'):
+        unit, desc = TYPE_ATTRS[kind[-2:]]
+        f = S.adsorbate_property_type_to_db if kind[0] == 'a' else S.material_property_type_to_db
+        f({'type': arg, 'unit': unit, 'description': desc}, overwrite=kind.endswith('_ow'), **kw)
     elif kind == 'atype_del':
         S.adsorbate_property_type_delete_db(arg, **kw)
     elif kind == 'mtype_del':
@@ -172,8 +178,8 @@ def _observe(S, db):
     ads = {a.name: _props(a) for a in S.adsorbates_from_db(db_path=db, verbose=False)}
     mats = {m.name: _props(m) for m in S.materials_from_db(db_path=db, verbose=False)}
     isos = {iso_key(i): (type(i).__name__, str(i.material), str(i.adsorbate)) for i in S.isotherms_from_db(db_path=db, verbose=False)}
-    atypes = {t['type'] for t in S.adsorbate_property_types_from_db(db_path=db, verbose=False)}
-    mtypes = {t['type'] for t in S.material_property_types_from_db(db_path=db, verbose=False)}
+    atypes = {t['type']: (t.get('unit'), t.get('description')) for t in S.adsorbate_property_types_from_db(db_path=db, verbose=False)}
+    mtypes = {t['type']: (t.get('unit'), t.get('description')) for t in S.material_property_types_from_db(db_path=db, verbose=False)}
     con = sqlite3.connect(db)
     orphans = con.execute("select count(*) from isotherm_data where iso_id not in (select id from isotherms)").fetchone()[0] + \
         con.execute("select count(*) from isotherm_properties where iso_id not in (select id from isotherms)").fetchone()[0] + \
@@ -213,8 +219,10 @@ def run_history(ops, tpl, tmp, reg0, dbs=1):
             if ads != m.ads or mats != m.mats or isos != m.isos or orphans:
                 what = 'adsorbates' if ads != m.ads else 'materials' if mats != m.mats else 'isotherms' if isos != m.isos else 'orphan rows'
                 return False, f"step {step} {op}@db{k}: {what} in db{j} differ from the dictionary model"
-            if not (m.atypes <= at and m.mtypes <= mt):
-                return False, f"step {step} {op}@db{k}: property types missing in db{j}"
+            if m.atypes != at or m.mtypes != mt:
+                diff = {t: (dict(m.atypes, **m.mtypes).get(t), dict(at, **mt).get(t)) for t in set(m.atypes) | set(m.mtypes) | set(at) | set(mt)
+                        if dict(m.atypes, **m.mtypes).get(t) != dict(at, **mt).get(t)}
+                return False, f"step {step} {op}@db{k}: property types in db{j} differ from the dictionary model (model, stored): {diff}"
     return True, ''
 
 
